@@ -330,6 +330,10 @@ def cli():
     sys.path.insert(0, HERE)
     repo = os.environ.get('VERIF_REPO', '/repo')
     sys.path.insert(0, repo)
+    # the repository draws class-level defaults from `random` at import time (e.g. the default session id of the hello
+    # messages): fix them so that two runs on the same tree explore the same objects
+    import random
+    random.seed(seed)
     mod = importlib.import_module('checks.' + a.prop.lower())
     if a.replay:
         sys.exit(replay_file(a.prop.upper(), mod, a.tier, seed, a.replay))
